@@ -94,6 +94,13 @@ def run(ctx):
         sfiles += [os.path.join(d, f) for f in sorted(os.listdir(d))]
     nseg, nev = _wpsuite.validate(ctx, sfiles, "suite", "writepath:suitetrace")
     ctx.cov["suite_writepath_traces"] = {"segments": nseg, "events": nev, "packages": pkgs}
+    # 3a'. documents of fractions with MANY document blocks, sealed one after the other in one process (what a start does with
+    # the unsealed fractions a crash left behind): objects the sealer takes from pools must not stay referenced by the
+    # sealed fraction - IndexLayout.tla's shapes with 4 KiB document blocks, C03's pooled-seal stage (fetch, byte-exact)
+    from checks import c03
+    sdrv = vlib.build_driver("shapes")
+    scf = c03.emit_shapes(ctx, "IndexLayout_real_small.cfg", "writepath:big")
+    c03.pooled_seal_stage(ctx, sdrv, scf, "writepath:big")
     # 3b. long behaviours in the same action alphabet (hundreds of acknowledged bulks with a size profile: one very large
     # bulk, >200 very small ones, again; one or two index workers; restarts in between): the per-worker buffers that
     # outlive a bulk and are re-sized from statistics over the last 200 bulks
